@@ -110,6 +110,8 @@ def gap_class(gap):
 UNBOUNDED = ("generating Weibull shape < 1.3 with free location and fitted shape < 1: the likelihood is unbounded, "
              "no maximiser exists")
 UNBOUNDED_TRUTH_BETA = 1.3
+CONCENTRATED = ("concentrated 3-parameter Weibull sample (scale 0.03..0.3, location 0.5..1.5 or its rescaling): the default "
+                "start values are far from the data's scale")
 NEGATIVE_C = "fitted c < 0: scipy.stats.gengamma is also a law for negative c, the search is unconstrained"
 
 
@@ -863,12 +865,23 @@ def register(ck, case, res):
     if "optimiser_error" in res:
         d = ck.extra.setdefault("max_measured_optimiser_error", {})
         d[name] = max(d.get(name, 0.0), res["optimiser_error"]["x"], res["optimiser_error"]["cx"])
+    conc = case.get("regime") == "concentrated" and name == "Weibull"
+    if conc:
+        ck.extra["weibull_concentrated_cases"] = ck.extra.get("weibull_concentrated_cases", 0) + 1
+        if res["bad"]:
+            ck.extra.setdefault("_weibull_concentrated_failures", []).append((case, res["bad"][0][1]))
     for pred, detail, extra in res["bad"]:
         sig = {"entry": entry(name), "predicate": pred}
         if name not in CLOSED_FORM and name != "VonMises":
             # iterative fits: the signature also names the start values and the magnitude class / input class
             sig["start"] = case["start_kind"] if case["start_kind"] in ("user", "fixed", "user_far") else "default"
             sig.update(extra)
+            if conc:
+                # known input class (see known_findings/C12.txt): rare divergence of the default-start fit on concentrated
+                # samples; the class is keyed on the INPUT, and a run in which it fails more than rarely is reported by the
+                # rate guard in main()
+                sig.pop("ll_gap", None)
+                sig["input_class"] = CONCENTRATED
         ck.fail(sig, case, detail)
         ck.count("C_oracle_failure=" + name + ":" + pred)
 
@@ -1039,6 +1052,15 @@ def main(ck):
         am = closed_form_argmax(ck, case)
         res = eval_case(case, argmax_start=am) if am else {"skip": "data scale", "bad": [], "fits": {}}
         register(ck, case, res)
+    # rate guard of the known "concentrated Weibull sample" class: the unchanged code fails on about 1.3 % of such cases
+    # (2 of 150 measured); more than max(2, 8 %) failing cases in one run (probability < 3e-4 under that rate) is not that
+    # finding but a regression
+    fails = ck.extra.pop("_weibull_concentrated_failures", [])
+    n_conc = ck.extra.get("weibull_concentrated_cases", 0)
+    ck.extra["weibull_concentrated_failures"] = len(fails)
+    if len(fails) > max(2, math.ceil(0.08 * n_conc)):
+        ck.fail({"entry": entry("Weibull"), "predicate": "concentrated_sample_failure_rate"}, fails[0][0],
+                f"{len(fails)} of {n_conc} fits of concentrated 3-parameter Weibull samples violate a clause (first: {fails[0][1][:300]})")
     for i in range(0, len(ll_items), 40):
         correspond_ll(ck, ll_items[i:i + 40])
     # small samples through the same models (n = 1, 2, 7)
